@@ -2,6 +2,7 @@ pub mod alloc;
 pub mod genreg;
 pub mod model;
 pub mod p_decode;
+pub mod p_hist;
 pub mod p_list;
 pub mod p_path;
 pub mod p_reg;
@@ -10,6 +11,7 @@ pub mod props2;
 pub mod refcodec;
 pub mod refjson;
 pub mod runner;
+pub mod vtypes;
 
 #[global_allocator]
 static GLOBAL: alloc::Counting = alloc::Counting;
